@@ -227,6 +227,67 @@ func TagSequence(r *simrt.RNG, n int) (string, string) {
 	return sb.String(), [...]string{"tags-file", "tags-template", "tags-nested"}[level]
 }
 
+// Names come from a deliberately tiny pool, so that namespaces, aliases and callee names overlap,
+// shadow and refer to each other (a.a, a.b.a, ...).
+var skelNames = []string{"a", "b", "a.a", "a.b", "b.a", "a.b.a", "a.a.a", "b.b"}
+
+// bodyTags are dictionary entries that make sense inside a template body.
+var bodyTags = []string{
+	"{if $x}", "{elseif $y}", "{else}", "{/if}", "{switch $x}", "{case 1}", "{default}", "{/switch}", "{foreach $i in $xs}", "{ifempty}", "{/foreach}", "{for $i in range(3)}", "{/for}",
+	"{let $a: 1 /}", "{let $a}", "{/let}", "{/call}", "{param a: 1 /}", "{param a}", "{/param}", "{msg desc=\"d\"}", "{/msg}", "{plural $n}", "{case 0}", "{/plural}",
+	"{css a}", "{css $x, b}", "{literal}", "{/literal}", "{log}", "{/log}", "{sp}", "{nil}", "{lb}", "{$x}", "{$x|noAutoescape}", "{$x.y?.z[0]}", "{$ij.a}", "{GLOBAL}", "{a.b.C}", "{['a': 1]}",
+	"text ", "<b>", "//c\n", "/* c */", "{delcall a.t /}",
+}
+
+// Skeleton builds a structurally plausible file: namespace, aliases, a few documented templates
+// whose bodies are short tag sequences with calls to names from the same tiny pool.
+func Skeleton(r *simrt.RNG) string {
+	name := func() string { return skelNames[r.Intn(len(skelNames))] }
+	var sb strings.Builder
+	sb.WriteString("{namespace " + name())
+	if r.Intn(4) == 0 {
+		sb.WriteString(" autoescape=\"" + []string{"true", "false", "contextual", "strict"}[r.Intn(4)] + "\"")
+	}
+	sb.WriteString("}\n")
+	for i, n := 0, r.Intn(4); i < n; i++ {
+		sb.WriteString("{alias " + name() + "}\n")
+	}
+	for t, nt := 0, 1+r.Intn(3); t < nt; t++ {
+		switch r.Intn(3) {
+		case 0:
+			sb.WriteString("/** @param x\n * @param? y */\n")
+		case 1:
+			sb.WriteString("/** */\n")
+		}
+		fmt.Fprintf(&sb, "{template .%s}\n", []string{"t", "u", "a", "b"}[r.Intn(4)])
+		if r.Intn(3) == 0 {
+			sb.WriteString("{@param xs: list<int>}\n")
+		}
+		for i, n := 0, r.Intn(6); i < n; i++ {
+			if r.Intn(3) == 0 {
+				callee := name() + "." + []string{"t", "u", "a", "x"}[r.Intn(4)]
+				if r.Intn(4) == 0 {
+					callee = "." + []string{"t", "u", "a"}[r.Intn(3)]
+				}
+				switch r.Intn(3) {
+				case 0:
+					sb.WriteString("{call " + callee + " /}")
+				case 1:
+					sb.WriteString("{call " + callee + " data=\"all\"}{param a: 1 /}{/call}")
+				default:
+					sb.WriteString("{call " + callee + "}")
+				}
+			} else {
+				sb.WriteString(bodyTags[r.Intn(len(bodyTags))])
+			}
+		}
+		if r.Intn(8) != 0 {
+			sb.WriteString("\n{/template}\n")
+		}
+	}
+	return sb.String()
+}
+
 // ExprSequence builds an expression input from atoms.
 func ExprSequence(r *simrt.RNG, n int) string {
 	var sb strings.Builder
